@@ -2,12 +2,15 @@ SPEC = {
     "level": "exploration",
     "parts": [
         {"name": "registry", "pkg": "./internal/client/", "run": "^TestVerifC04$",
-         "harness": ["client/c04_*.go"], "timeout_quick": 600, "timeout_thorough": 3000},
+         "harness": ["client/c04_registry_test.go"], "timeout_quick": 600, "timeout_thorough": 3000},
+        {"name": "concurrent", "pkg": "./internal/client/", "run": "^TestVerifC04Concurrent$",
+         "harness": ["client/c04_registry_test.go", "client/c04_concurrent_test.go"],
+         "race": True, "modfile": True, "timeout_quick": 600, "timeout_thorough": 3000},
     ],
 }
 
 CLAIM = {
-    "text": "Seeded histories (5-60 operations: add / update with rename, replaced, dropped, added or stolen identifiers, no-op / remove / DHCP lease change) are run against a fresh client.Storage through its exported API with a scripted DHCP fake, over 8 client names and an identifier pool built to collide (exact IPs, nested and equal-length v4/v6 CIDRs, zoned address, MACs of 6/8/20 bytes sharing prefixes, ClientIDs). After every operation every name, ClientID, MAC and address is looked up (Find, FindByName, RangeByName, Size) and every (ClientID present/absent/unknown) x (address) request goes through ApplyClientFiltering with the global switches all off and all on; owner, record contents and the written settings (name, tags, four flags, safe-search object, blocked services, and the blocked-service rules produced by filtering.ApplyAdditionalFiltering) are compared with a shadow registry computed from the statement. Operations sharing a name/identifier must return an error; after an error every lookup must read as before. Exploration: held on the histories observed, which the evidence counts.",
-    "note": "Trusted: Persistent.SetIDs for turning identifier strings into typed identifiers. Not judged (counted as unspecified): non-canonical CIDR spellings, other MAC spellings / letter case, upper-case ClientIDs, colon spelling of 8-byte MACs (also an IPv6 address). Sequential only; data races are C05's subject.",
-    "technique": "runtime monitor: shadow-model oracle over seeded operation histories (exported API)",
+    "text": "Seeded histories (5-60 operations: add / update with rename, replaced, dropped, added or stolen identifiers, no-op / remove / DHCP lease change) are run against a fresh client.Storage through its exported API with a scripted DHCP fake, over 8 client names and an identifier pool built to collide (exact IPs, nested and equal-length v4/v6 CIDRs, zoned address, MACs of 6/8/20 bytes sharing prefixes, ClientIDs). After every operation every name, ClientID, MAC and address is looked up (Find, FindByName, RangeByName, Size) and every (ClientID present/absent/unknown) x (address) request goes through ApplyClientFiltering with the global switches all off and all on; owner, record contents and the written settings (name, tags, four flags, safe-search object, blocked services, and the blocked-service rules produced by filtering.ApplyAdditionalFiltering) are compared with a shadow registry computed from the statement. Operations sharing a name/identifier must return an error; after an error every lookup must read as before. Concurrent part (race detector on): rounds of a fresh storage with 1-3 clients, 2-4 writer goroutines doing seeded Add / Update (new identifiers, mostly with custom upstreams) / RemoveByName on the same 3 names and 1-2 reader goroutines (FindByName, Find, ApplyClientFiltering), released together; every call is recorded with its result on a logical clock. At quiescence: names unique, FindByName agrees with RangeByName, no identifier listed twice, every identifier and probe address resolves (Find, ApplyClientFiltering) exactly to the client that lists it or to nobody, and every identifier and name nobody holds can be taken by a new client; the whole recorded history is checked with porcupine against the sequential registry. Exploration: held on the histories observed, which the evidence counts.",
+    "note": "Trusted: Persistent.SetIDs for turning identifier strings into typed identifiers. Not judged (counted as unspecified): non-canonical CIDR spellings, other MAC spellings / letter case, upper-case ClientIDs, colon spelling of 8-byte MACs (also an IPv6 address). The concurrent part judges results and final state, not data races as such (C05's subject), although it runs under -race. Trusted: porcupine v1.3.0.",
+    "technique": "runtime monitor: shadow-model oracle over seeded operation histories; concurrent rounds under -race with quiescent structural invariants and a porcupine linearizability check (exported API)",
 }
